@@ -102,6 +102,13 @@ def check(run):
     jobs += [("hsl(240, 100%, 10%)", "#fff", False, 1, False), ("notacolor", "#fff", False, 1, False), ((0, 0, 51), (0, 0, 60), False, 0, True)]
     with pool() as p:
         res = p.map(w_effects, jobs, chunksize=1)
+    from proto import run_lines
+    pred = {}
+    for valid in (0, 1):
+        for sh in (0, 1):
+            for sv in (0, 1):
+                o = run_lines(["effects %d %d %d" % (valid, sh, sv)])[0].split()
+                pred[(valid, sh, sv)] = (any(x == "stdout" for x in o), sorted(x[6:] for x in o if x.startswith("write:")))
     for r in res:
         job = r["job"]
         case = {"text": repr(job[0]), "bg": repr(job[1]), "large": job[2], "mode": job[3], "very_readable": job[4]}
@@ -127,6 +134,10 @@ def check(run):
                 run.violation("save_report did not produce the documented report", case, files=new)
             if e:
                 run.violation("make_readable(%s) wrote to stderr" % name, case, stderr_bytes=e)
+            # the effects model's prediction (kinds of effect, not their text)
+            want = pred[(1 if r["valid"] else 0, 1 if name in ("show", "both") else 0, 1 if name in ("save", "both") else 0)]
+            if (o > 0, sorted(new)) != want:
+                run.diverge("observed effects==Cm.mrEffects", case, [name, o > 0, sorted(new)], list(want))
         same, err, new = r["bulk_save"]
         if err:
             run.violation("make_readable_bulk(save_report=True) raised", case, got=err)
